@@ -16,6 +16,7 @@
 // fork-per-case loop with a CPU alarm.
 #define main tsgdrv_main_unused
 #include "tsgdrv.cpp"
+#include "caselimit.hpp"
 #undef main
 
 static void pparked(const std::forward_list<NodeData> &data, size_t d, size_t outs) {
@@ -84,16 +85,16 @@ int main(int argc, char **argv) {
         fflush(stdout);
         pid_t pid = fork();
         if (pid == 0) {
-            alarm((unsigned) case_timeout);
+            verif_case_limit(case_timeout);
             for (auto &l : c) if (!run_extra(l)) run_guarded(l);
             fflush(stdout);
             _exit(0);
         }
         int status = 0; waitpid(pid, &status, 0);
         if (WIFSIGNALED(status)) {
-            if (WTERMSIG(status) == SIGALRM) printf("x hang no return within %d s\n", case_timeout);
-            else printf("x crash:%d terminated by signal\n", WTERMSIG(status));
-        } else if (WIFEXITED(status) && WEXITSTATUS(status) != 0) printf("x crash:exit%d abnormal exit\n", WEXITSTATUS(status));
+            if (verif_is_timeout(WTERMSIG(status))) printf("\nx hang no return within %d s\n", case_timeout);
+            else printf("\nx crash:%d terminated by signal\n", WTERMSIG(status));
+        } else if (WIFEXITED(status) && WEXITSTATUS(status) != 0) printf("\nx crash:exit%d abnormal exit\n", WEXITSTATUS(status));
         fflush(stdout);
     }
     return 0;
